@@ -5,6 +5,7 @@ mod enc;
 mod exprs;
 mod sexp;
 mod hexw;
+mod hist;
 mod tables;
 mod util;
 
@@ -22,6 +23,7 @@ fn main() {
         "ops" => tables::ops(),
         "dirs" => tables::dirs(),
         "enc" => enc::main(),
+        "hist" => hist::main(&args[2..]),
         "build" => build::main(),
         "build-worker" => build::worker(),
         "expr" => exprs::main(),
